@@ -1408,6 +1408,7 @@ Proof.
   intros Hf. unfold process_invoice.
   destruct (check_ttl w t) as [[]|e|q]; cbn [fst]; try (split; [exact Hf|apply child_le_refl]).
   destruct (find _ (w_log w)); cbn [fst]; [split; [exact Hf|apply child_le_refl]|].
+  destruct (ctx_has_inputs w s); cbn [fst]; [split; [exact Hf|apply child_le_refl]|].
   match goal with |- context [refresh w ?a ?b ?c ?d ?e] =>
     destruct (refresh_fresh w a b c d e Hf) as [Hfr Hler]; set (wr := refresh w a b c d e) in * end.
   destruct (build_send _ _) as [b|e|q]; cbn [fst]; try (split; [exact Hfr|exact Hler]).
@@ -1575,6 +1576,7 @@ Proof.
     unfold WF. cbn [w_outs save_ctx with_ctxs with_log with_outs]. apply nodup_save. rewrite Ho2, Ho1. exact Hn.
   - unfold process_invoice. destruct (check_ttl w ttl) as [[]|e|q]; cbn [fst]; try exact Hn.
     destruct (find _ (w_log w)); cbn [fst]; [exact Hn|].
+    destruct (ctx_has_inputs w slate); cbn [fst]; [exact Hn|].
     match goal with |- context [refresh w ?a ?b ?c ?d ?e] =>
       pose proof (refresh_wf w a b c d e Hn) as Hnr; set (wr := refresh w a b c d e) in * end.
     destruct (build_send _ _) as [b|e|q]; cbn [fst]; try exact Hnr.
@@ -1860,6 +1862,19 @@ Lemma process_invoice_expired w s ttl src p tip pr km :
 Proof.
   intros H1 H2. unfold process_invoice.
   assert (E : check_ttl w ttl = Err EExpired) by (apply check_ttl_spec; auto). now rewrite E.
+Qed.
+
+(** a payer that already built its contribution for an invoice (the stored context names
+    inputs) refuses to process the same invoice again, from any account, with any arguments *)
+Lemma process_invoice_twice_refused w s ttl src p tip pr km :
+  ctx_has_inputs w s = true ->
+  fst (process_invoice w s ttl src p tip pr km) = w
+  /\ is_ok (snd (process_invoice w s ttl src p tip pr km)) = false.
+Proof.
+  intros H. unfold process_invoice.
+  destruct (check_ttl w ttl) as [[]|e|q]; cbn [fst snd]; try (split; reflexivity).
+  destruct (find _ (w_log w)); cbn [fst snd]; [split; reflexivity|].
+  rewrite H. split; reflexivity.
 Qed.
 
 Lemma finalize_invoice_expired w s ttl c :
